@@ -471,7 +471,12 @@ func (r *runner[C]) evalFrom(c C, phase, file string) []Violation {
 			os.WriteFile(r.curFile, rf, 0o644)
 		}
 	}
+	t0 := time.Now()
 	o := r.spec.Check(c)
+	if ms, _ := strconv.Atoi(os.Getenv("VERIF_SLOW")); ms > 0 && time.Since(t0) > time.Duration(ms)*time.Millisecond {
+		b, _ := json.Marshal(c)
+		fmt.Printf("SLOW: %v %.3000s\n", time.Since(t0), b)
+	}
 	r.p.Evaluations++
 	for _, cl := range o.Classes {
 		r.p.Classes[cl]++
